@@ -251,6 +251,62 @@ class Gen:
                 out.append(s_obs(idx(var(p), lit("int", -r.randrange(1, pos + 1)))))
         return [s_block(out)]
 
+    def fmag(self, tn, wide):
+        """an integral magnitude exactly representable in tn; wide: uses the whole significand (needs every digit when printed)"""
+        r = self.r
+        bits = 24 if tn == "float" else 53
+        if not wide:
+            return r.choice([0, 1, 2, 3, 100, 255, 65536, 1000000, 16777215])
+        m = r.getrandbits(bits) | 1 | (1 << (bits - 1))
+        return m << r.choice([0, 0, 1, 3, 9, 10 if tn == "double" else 20])
+
+    def fpobj(self, sc):
+        """objects of floating type (static and automatic, scalars and arrays): initialisation, exact arithmetic, comparison, conversion"""
+        r = self.r
+        out, known = [], {}
+        for _ in range(r.randrange(1, 4)):
+            tn, n = r.choice(["double", "double", "float"]), self.fresh("fd")
+            neg, mag = r.random() < 0.3, self.fmag(tn, r.random() < 0.6)
+            where = r.random()
+            if where < 0.4:
+                self.globals.append(s_decl(n, F(tn), i_e(flit(tn, neg, mag))))
+            elif where < 0.6:
+                out.append(s_static(n, F(tn), i_e(flit(tn, neg, mag)), n))
+            else:
+                out.append(s_decl(n, F(tn), i_e(flit(tn, neg, mag))))
+            known[n] = (tn, neg, mag)
+        if r.random() < 0.5:
+            tn, n, ln = r.choice(["double", "float"]), self.fresh("fa"), r.randrange(2, 5)
+            vals = [(r.random() < 0.3, self.fmag(tn, r.random() < 0.6)) for _ in range(r.randrange(1, ln + 1))]
+            d = s_decl(n, A(F(tn), ln), i_list([i_e(flit(tn, a, b)) for a, b in vals]))
+            if r.random() < 0.6:
+                self.globals.append(d)
+            else:
+                out.append(d)
+            for j in range(ln):
+                a, b = vals[j] if j < len(vals) else (False, 0)
+                out.append(s_obs(bin_("==", idx(var(n), lit("int", j)), flit(tn, a, b))))
+                if b < (1 << 62):
+                    out.append(s_obs(cast(T("llong"), idx(var(n), lit("int", j)))))
+        names = list(known)
+        for n in names:
+            tn, neg, mag = known[n]
+            out.append(s_obs(bin_("==", var(n), flit(tn, neg, mag))))
+            if mag < (1 << 62):
+                out.append(s_obs(cast(T("llong"), var(n))))
+            if mag < (1 << 31) and not neg:
+                out.append(s_obs(cast(T(r.choice(["int", "uint", "ulong", "ushort" if mag < 65536 else "uint"])), var(n))))
+            o = r.choice(names)
+            out.append(s_obs(bin_(r.choice(["<", "<=", ">", ">=", "!="]), var(n), var(o))))
+            if mag <= 16777215:
+                # small values: exact arithmetic and conversions from integers
+                k = r.randrange(1, 50)
+                out.append(s_asg(r.choice(["+=", "-=", "*="]), var(n), flit(tn, False, k) if r.random() < 0.6 else lit("int", k)))
+                out.append(s_obs(cast(T("llong"), var(n))))
+                out.append(s_asg("=", var(n), self.atom(sc)))
+                out.append(s_obs(cast(T("llong"), bin_("+", var(n), flit("double", False, 1)))))
+        return [s_block(out)]
+
     def special(self, sc):
         """VLAs, whole-struct copies, struct-by-value calls"""
         r = self.r
@@ -384,6 +440,8 @@ class Gen:
             return self.seqfx(sc)
         if c < 0.50:
             return self.ptrwalk(sc)
+        if c < 0.52 and depth == 0:
+            return self.fpobj(sc)
         if c < 0.55:
             return [s_obs(self.expr(sc))]
         if depth >= 2:
@@ -680,18 +738,32 @@ def vm_program(rng, charsigned):
     return program(g.structs, g.globals, [func("main", T("int"), [], s_block(body))], charsigned)
 
 
+def fp_program(rng, charsigned):
+    """floating objects with static and automatic storage"""
+    g = Gen(rng)
+    sc = g.empty_scope()
+    body = []
+    for _ in range(rng.randrange(1, 4)):
+        body += g.fpobj(sc)
+    body.append(s_ret(lit("int", 0)))
+    return program(g.structs, g.globals, [func("main", T("int"), [], s_block(body))], charsigned)
+
+
 def random_programs(ctx, objdir, runtime):
     import props.c01 as c01
     n = 48 if ctx.quick else 600
     n_init = 24 if ctx.quick else 300
     n_sw = 6 if ctx.quick else 60
     n_vm = 8 if ctx.quick else 120
+    n_fp = 8 if ctx.quick else 120
     n_refine = 12 if ctx.quick else 80
     progs = []
-    for i in range(n + n_init + n_sw + n_vm):
+    for i in range(n + n_init + n_sw + n_vm + n_fp):
         t = ["x86_64-sysv", "aarch64", "riscv64"][i % 3] if not ctx.quick else ["x86_64-sysv", "aarch64"][i % 2]
         rng = random.Random(ctx.seed * 100003 + i)
-        if i >= n + n_init + n_sw:
+        if i >= n + n_init + n_sw + n_vm:
+            progs.append((fp_program(rng, c01.charsigned_of(t)), t))
+        elif i >= n + n_init + n_sw:
             progs.append((vm_program(rng, c01.charsigned_of(t)), t))
         elif i >= n + n_init:
             progs.append((switch_program(rng, c01.charsigned_of(t)), t))
